@@ -49,7 +49,10 @@ func genC03(seed uint64, i int, tier string) *Scenario {
 	if i%20011 == 19 {
 		return genC03Big(r)
 	}
-	style := pick(r, []string{StoreMixed, StoreInts, StoreNum, StoreText, StoreJSON, StoreMixed, StoreCollide, StoreUnicode})
+	if i%211 == 5 {
+		return genC03Extra(r, i)
+	}
+	style := pick(r, []string{StoreMixed, StoreInts, StoreNum, StoreText, StoreJSON, StoreMixed, StoreCollide, StoreUnicode, StoreBytes})
 	g := newGen(r, style)
 	b := pickBatch(r)
 	sc := &Scenario{Cfg: Config{Batch: b, Cache: r.Bool(), Alias: r.Chance(0.3), Lazy: r.Chance(0.3)}}
